@@ -165,7 +165,7 @@ structure RState where
   stack : List Nat := [0]
   deleteBlock : Option Nat := none
   retainEnd : Bool := true
-  onElseOrEnd : ToInject := {}                       -- only `Before` is ever used for it
+  onElseOrEnd : List (Nat × ToInject) := []          -- block id of the `if` ↦ bodies for `before[else | end]` (only `Before` is used)
   onEndBefore : List (Nat × ToInject) := []          -- block id ↦ bodies for `before[end]`
   onEndAfter : List (Nat × ToInject) := []           -- block id ↦ bodies for `after[end]`
   entry : List Tok := []
@@ -217,7 +217,10 @@ def planSpecial (s : RState) (idx : Nat) (ins : Instr) : RState :=
     if ins.blockExit.isEmpty then s
     else
       let s := match ins.kind with
-        | .if_ => { s with onElseOrEnd := { s.onElseOrEnd with notFlagged := s.onElseOrEnd.notFlagged ++ [ins.blockExit] } }
+        | .if_ =>
+          let k := top s.stack
+          let cur := getInj s.onElseOrEnd k
+          { s with onElseOrEnd := setInj s.onElseOrEnd k { cur with notFlagged := cur.notFlagged ++ [ins.blockExit] } }
         | .block | .loop | .else_ =>
           let k := top s.stack
           let cur := getInj s.onEndBefore k
@@ -267,10 +270,11 @@ def rstep (last : Nat) (s : RState) (idx : Nat) (ins : Instr) : RState :=
         some { s with body := planBlockAlt s.body idx alt, retainEnd := isElse, deleteBlock := some (top s.stack) }
       else some { s with body := discardSpecial (setEmptyAlt s.body idx) idx }
     | none => if s.deleteBlock.isSome then some { s with body := discardSpecial (setEmptyAlt s.body idx) idx } else none
-  let flushElseOrEnd (s : RState) : RState :=
-    let ts := resolveBodies s.onElseOrEnd
-    let hasAny := !s.onElseOrEnd.flagged.isEmpty || !s.onElseOrEnd.notFlagged.isEmpty
-    { s with body := if hasAny then addBefore s.body idx ts else s.body, onElseOrEnd := {} }
+  -- the pending block-exit bodies of the `if` with block id `k` (flushed at its `else` or `end` only)
+  let flushElseOrEnd (s : RState) (k : Nat) : RState :=
+    if s.onElseOrEnd.any (·.1 == k) then
+      { s with body := addBefore s.body idx (resolveBodies (getInj s.onElseOrEnd k)), onElseOrEnd := removeInj s.onElseOrEnd k }
+    else s
   match ins.kind with
   | .block | .loop | .if_ =>
     let s := { s with stack := s.stack ++ [s.stack.length] }
@@ -278,7 +282,7 @@ def rstep (last : Nat) (s : RState) (idx : Nat) (ins : Instr) : RState :=
     | some s' => s'
     | none => planSpecial s idx ins
   | .else_ =>
-    let s := flushElseOrEnd s
+    let s := flushElseOrEnd s (top s.stack)
     match handleAlt s true with
     | some s' => s'
     | none => planSpecial s idx ins
@@ -299,7 +303,7 @@ def rstep (last : Nat) (s : RState) (idx : Nat) (ins : Instr) : RState :=
       | some s' => s'
       | none =>
         let s := if s.deleteBlock == some blockId then { s with deleteBlock := none, retainEnd := true } else s
-        let s := flushElseOrEnd s
+        let s := flushElseOrEnd s blockId
         let bInj := getInj s.onEndBefore blockId
         let aInj := getInj s.onEndAfter blockId
         let hasB := s.onEndBefore.any (·.1 == blockId)
